@@ -63,6 +63,8 @@ def run_history(ctx, R, rng, cache, nops, script=None):
     m = {'rrule': [], 'rdate': [], 'exrule': [], 'exdate': []}
     hist = []
     live = []            # iterators created earlier
+    live_info = {}       # id(iterator) -> [mutation count at creation, items consumed, model list at creation]
+    mut_count = 0
     mutated_after_iter = False
     iterated = False
     steps = script if script is not None else [None] * nops
@@ -103,11 +105,13 @@ def run_history(ctx, R, rng, cache, nops, script=None):
             rule = R.rrule(**U.kw_from_json(arg, R))
             getattr(rs, op)(rule)
             m[op].append(list(R.rrule(**U.kw_from_json(arg, R))))
+            mut_count += 1
             if iterated:
                 mutated_after_iter = True
         elif op in ('rdate', 'exdate'):
             getattr(rs, op)(f(arg))
             m[op].append(f(arg))
+            mut_count += 1
             if iterated:
                 mutated_after_iter = True
         else:
@@ -121,6 +125,7 @@ def run_history(ctx, R, rng, cache, nops, script=None):
                 it = iter(rs)
                 got, exp = outcome(lambda: list(itertools.islice(it, arg))), ('ok', L[:arg])
                 live.append(it)
+                live_info[id(it)] = [mut_count, min(arg, len(L)), L]
                 iterated = True
             elif op in ('resume_live', 'resume_old'):
                 if not live:
@@ -133,10 +138,19 @@ def run_history(ctx, R, rng, cache, nops, script=None):
                     it = live[rng.randrange(len(live))] if script is None else live[-1]
                 if op == 'resume_old' and live:
                     it = live[0]
-                # its own output is not judged (created before later additions); it must not raise and must not damage
-                # later iterations / queries, which the post-check below verifies
-                got = outcome(lambda: len(list(itertools.islice(it, arg))) >= 0)
-                exp = ('ok', True)
+                # the output of an iterator created before a later addition is not judged (unspecified); it must not raise
+                # and must not damage later iterations / queries, which the post-check below verifies.  When NO member was
+                # added since it was created - only other iterations and queries ran in between - it must simply continue
+                # the sequence it started.
+                info = live_info.get(id(it))
+                if info is not None and info[0] == mut_count:
+                    got = outcome(lambda: list(itertools.islice(it, arg)))
+                    exp = ('ok', info[2][info[1]:info[1] + arg])
+                    info[1] = min(info[1] + arg, len(info[2]))
+                    ctx.count('resumed_live_iterators_judged')
+                else:
+                    got = outcome(lambda: len(list(itertools.islice(it, arg))) >= 0)
+                    exp = ('ok', True)
                 ctx.count('resumed_live_iterators')
             elif op == 'count':
                 got, exp = outcome(rs.count), ('ok', len(L))
@@ -219,6 +233,26 @@ def directed(ctx, R):
         ctx.count('directed_histories')
 
 
+def interleaved_iterations(ctx, R):
+    """several iterations and queries over one set interleaved WITHOUT any modification: each iterator continues its own
+    sequence (rules with several occurrences per period, spanning years and months)"""
+    import random
+    st = U.BASE
+    rules = [{'freq': R.YEARLY, 'dtstart': st, 'bymonth': [3, 7, 11], 'count': 14}, {'freq': R.MONTHLY, 'dtstart': st, 'bymonthday': [1, 15, -1], 'count': 20},
+             {'freq': R.WEEKLY, 'dtstart': st, 'byweekday': [R.MO, R.FR], 'count': 16}, {'freq': R.YEARLY, 'dtstart': st, 'byweekno': [1, 20, 52], 'byweekday': [R.TU], 'count': 9}]
+    queries = [['count', None], ['iter_full', None], ['getitem', 12], ['contains', [U.iso(st + D.timedelta(days=400)), False]], ['iter_part', 7],
+               ['after', [U.iso(st + D.timedelta(days=500)), True]]]
+    for kw in rules:
+        for two in (False, True):
+            for k in (1, 2, 5):
+                for q in queries:
+                    for cache in (False, True):
+                        script = [['rrule', U.kw_json(kw)]] + ([['rrule', U.kw_json(dict(kw, dtstart=st + D.timedelta(hours=3)))]] if two else []) + \
+                                 [['iter_part', k], q, ['resume_old', 4], q, ['resume_old', 40], ['check', None]]
+                        run_history(ctx, R, random.Random(0), cache, 0, script)
+                        ctx.count('interleaved_histories')
+
+
 def stale_iterator_sweep(ctx, R):
     """an iterator opened before a member is added and resumed afterwards - before, between or after newer iterations -
     must not damage what later iterations and queries see (lengths at and around the cache fill batch)"""
@@ -260,6 +294,8 @@ def run(ctx):
         directed(ctx, R)
     if ctx.shard == 1 % ctx.nshards:
         stale_iterator_sweep(ctx, R)
+    if ctx.shard == 2 % ctx.nshards:
+        interleaved_iterations(ctx, R)
 
 
 def floors(agg, tier):
